@@ -14,9 +14,17 @@
    and the correspondence run of the software-only build compares it with AesSpec; in-place
    operation (aliasing) is a runtime matter exercised by the driver. *)
 From Coq Require Import NArith List.
-From LCP Require Import Base.CheckedMem Gen.Repo_aes Crypto.AesSpec Crypto.AesProofs Accel.AesNi
-  Crypto.AesCtrModel Crypto.AesRepo Accel.AesNiProofs Accel.AesNiKeyProofs Crypto.AesCtrProofs
-  Crypto.AesTop.
+From LCP Require Import Base.CheckedMem.
+From LCP Require Import Gen.Repo_aes.
+From LCP Require Import Crypto.AesSpec.
+From LCP Require Import Crypto.AesProofs.
+From LCP Require Import Accel.AesNi.
+From LCP Require Import Crypto.AesCtrModel.
+From LCP Require Import Crypto.AesRepo.
+From LCP Require Import Accel.AesNiProofs.
+From LCP Require Import Accel.AesNiKeyProofs.
+From LCP Require Import Crypto.AesCtrProofs.
+From LCP Require Import Crypto.AesTop.
 Import ListNotations.
 Local Open Scope N_scope.
 
